@@ -53,52 +53,48 @@ def _clone(pe):
     return q
 
 
-def evaluate(tree, var_of, env):
-    """integer value of `tree` under the assignment; NeedVar if an unassigned variable occurs, Opaque otherwise"""
-    m = {}
-    need = []
+PURE_CALLS = {
+    "core::cmp::max": max, "core::cmp::min": min,
+    "core::cmp::Ord::max": max, "core::cmp::Ord::min": min,
+    "<i32 as core::cmp::Ord>::max": max, "<i32 as core::cmp::Ord>::min": min,
+}
 
-    def walk(t):
-        if not isinstance(t, tuple) or not t:
-            return
-        n = var_of(t)
-        if n is not None:
-            if n in env:
-                m[t] = env[n]
-            else:
-                need.append(n)
-            return
-        if t[0] == "bin":
-            walk(t[2]); walk(t[3])
-        elif t[0] in ("un", "cast"):
-            walk(t[2])
-    walk(tree)
-    if need:
-        # is the rest evaluable at all? (an opaque leaf next to a free variable: opaque)
-        probe = dict(m)
-        def fill(t):
-            if not isinstance(t, tuple) or not t:
-                return
-            n = var_of(t)
-            if n is not None:
-                probe.setdefault(t, 0)
-                return
-            if t[0] == "bin":
-                fill(t[2]); fill(t[3])
-            elif t[0] in ("un", "cast"):
-                fill(t[2])
-        fill(tree)
+
+def _reduce(t, var_of, env, need):
+    """tree with variables and pure calls replaced by constants; unassigned variables are collected in `need`"""
+    if not isinstance(t, tuple) or not t:
+        return t
+    n = var_of(t)
+    if n is not None:
+        if n in env:
+            return ("c", env[n], None, None)
+        need.append(n)
+        return ("c", 0, None, None)
+    k = t[0]
+    if k == "bin":
+        return ("bin", t[1], _reduce(t[2], var_of, env, need), _reduce(t[3], var_of, env, need), t[4])
+    if k in ("un", "cast"):
+        return (k, t[1], _reduce(t[2], var_of, env, need), t[3])
+    if k == "call" and t[1] in PURE_CALLS and len(t[2]) == 2:
+        a, b = (_reduce(x, var_of, env, need) for x in t[2])
         try:
-            fold(tree, probe)
+            return ("c", PURE_CALLS[t[1]](fold(a), fold(b)), None, None)
         except Unfoldable:
             raise Opaque()
-        except Exception:
-            pass
-        raise NeedVar(need[0])
+    return t
+
+
+def evaluate(tree, var_of, env):
+    """integer value of `tree` under the assignment; NeedVar if an unassigned variable occurs, Opaque otherwise"""
+    need = []
+    r = _reduce(tree, var_of, env, need)
     try:
-        return fold(tree, m)
+        v = fold(r)
     except Unfoldable:
         raise Opaque()
+    if need:
+        raise NeedVar(need[0])
+    return v
 
 
 def explore(f, var_of, domains, inliner=None, keep_mem=None, max_leaves=20000, entry=0, stop_at=None, relevant=None):
